@@ -7,6 +7,8 @@ from selftest import runner
 jobs = []
 for d in sorted(glob.glob("/verif/seeded/*")):
     meta = json.load(open(d + "/meta.json"))
+    if meta.get("expected_undetected"):
+        continue
     jobs.append((d, meta))
 
 def one(job):
